@@ -31,6 +31,16 @@ thread_local! {
     /// the EventFd handed to `add_kill_switch` is descriptor number 0 (a process started with
     /// stdin closed gets that number for the first descriptor it opens)
     pub static KILL_ON_FD0: std::cell::Cell<bool> = std::cell::Cell::new(false);
+    /// the EventFd is created without EFD_NONBLOCK (the server is only ever asked to watch it)
+    pub static KILL_BLOCKING: std::cell::Cell<bool> = std::cell::Cell::new(false);
+}
+
+fn kill_flags() -> i32 {
+    if KILL_BLOCKING.with(|c| c.get()) {
+        0
+    } else {
+        EFD_NONBLOCK
+    }
 }
 
 /// draw the construction variant of the next world(s) from the case bytes
@@ -146,6 +156,9 @@ pub struct World {
     pub fd0_taken: bool,
     /// length of a pad header the next composed request gets (used to hit exact total sizes)
     pub next_pad: usize,
+    /// the first 503 message any client of this world received ("the fixed message": every
+    /// refused client gets the same bytes)
+    pub first_503: std::cell::RefCell<Option<Vec<u8>>>,
     /// the values of the requests' extra header fields carry multi-byte characters
     pub unicode_headers: bool,
 }
@@ -220,7 +233,7 @@ impl World {
                 saved0 = Some(d);
             }
             unsafe { libc::close(0) };
-            let k = EventFd::new(EFD_NONBLOCK).map_err(|e| e.to_string())?;
+            let k = EventFd::new(kill_flags()).map_err(|e| e.to_string())?;
             if k.as_raw_fd() != 0 {
                 return Err(format!("kill switch expected on descriptor 0, got {}", k.as_raw_fd()));
             }
@@ -264,7 +277,7 @@ impl World {
             // the object on descriptor 0 goes to the server; the harness signals through a clone
             Some(k0) => (Some(k0.try_clone().map_err(|e| e.to_string())?), Some(k0)),
             None => {
-                let kill_h = if with_kill { Some(EventFd::new(EFD_NONBLOCK).map_err(|e| e.to_string())?) } else { None };
+                let kill_h = if with_kill { Some(EventFd::new(kill_flags()).map_err(|e| e.to_string())?) } else { None };
                 let kfs = match &kill_h {
                     Some(k) => Some(k.try_clone().map_err(|e| e.to_string())?),
                     None => None,
@@ -336,6 +349,7 @@ impl World {
             keep_answered: false,
             surplus_responds: 0,
             next_pad: 0,
+            first_503: std::cell::RefCell::new(None),
             unicode_headers: false,
             saved0,
             fd0_taken: kill_on_0,
@@ -1156,6 +1170,14 @@ pub fn audit_client(w: &World, c: usize) -> Result<Audit, (String, String)> {
                     let body40: &[u8] = &SERVER_FULL[SERVER_FULL.len() - 40..];
                     if r.header("Connection") != Some("close") || r.header("Content-Length") != Some("40") || r.body != body40 {
                         return Err(("bad-503".into(), format!("client {} received a 503 that is not the fixed message: \"{}\"", c, esc(raw))));
+                    }
+                    let mut first = w.first_503.borrow_mut();
+                    match &*first {
+                        None => *first = Some(raw.to_vec()),
+                        Some(f) if f.as_slice() != raw => {
+                            return Err(("bad-503".into(), format!("client {} received a 503 that differs from the one another refused client received: \"{}\" vs \"{}\"", c, esc(raw), esc(f))));
+                        }
+                        _ => {}
                     }
                 }
                 500 => a.n500 += 1,
